@@ -4,18 +4,30 @@ from checks import raft_witness
 
 META = dict(
     engine="coq+hx_raft",
-    technique="Coq: executable model of raft.rs with a ghost history of leader commits and elections; refutation witnesses by vm_compute; differential correspondence with the real raft.rs "
+    technique="Coq: executable model of raft.rs with a ghost history of leader commits and elections; refutation witnesses by vm_compute; conditional proof of leader completeness "
+              "(log matching + inductive invariant over all event lists) under the negation of three decidable defect markers; differential correspondence with the real raft.rs "
               "after every event; direct oracle (a node that becomes leader lacks an entry a leader committed earlier) on the implementation's states",
-    level_text="The full property is machine-checked FALSE of the faithful model: a witness history with one leader per term, no double vote, no stale vote and only matching "
-               "acknowledgements ends with a new leader that lacks an entry committed by an earlier leader (the leader commits an entry of an older term by counting replicas, and the vote rule "
-               "compares index, term and commit separately); two further single-leader witness histories (Append acknowledged from a diverged log; a voter acknowledging an Append below its voted term) and two through the election defects of C27 show the same failure. All are reproduced on the real "
-               "code and recorded as known findings. The model carries the revision of the election code (C27): the check reads raft.rs and compares with the model of that revision; "
-               "the refutations through old-term commit and diverged-log acknowledgement are machine-checked for EVERY revision, the other three only before the C27 repairs - on a tree "
+    level_text="The full property is machine-checked FALSE of the faithful model: witness histories with one leader per term end with a new leader that lacks an entry committed by an earlier leader, with FOUR independent causes - "
+               "the leader commits an entry of an older term by counting replicas (old-term-commit); an Append is acknowledged from a diverged log (ack-from-diverged-log); the leader counts a peer-table row that is not an "
+               "acknowledgement of its current term and commits an entry held by fewer than a quorum (commit-without-quorum, NEW: found while attempting the conditional proof, 5 nodes, not found by the random search); "
+               "a voter acknowledging an Append below its voted term (only before the C27 repairs) - and two through the election defects of C27. All are reproduced on the real code and recorded as known findings. "
+               "CONDITIONAL THEOREM (C29_partial), machine-checked for the code now in /repo (model revision rr_fixed = with both C27 election repairs), every cluster size other than 1 and every adversarial event list: "
+               "if none of the three log-replication markers (ack-from-diverged-log, old-term-commit, commit-without-quorum) occurs in the run, every entry committed by a leader of term t is in the log of every node that becomes "
+               "leader later for a HIGHER term (Raft's Leader Completeness) - these three classes are the only ways the repaired raft.rs can lose a leader-committed entry to a leader of a higher term. "
+               "The LITERAL statement of the property (every later leader, whatever its term) additionally needs the absence of a harmless situation - a stale candidate of an OLDER term collects delayed votes and becomes leader of that "
+               "older term after the commit (C29_partial_literal) - and C29_literal_refuted_by_late_leader shows (3 nodes, 26 events, none of the six classes) that this extra hypothesis cannot be dropped: the literal statement is "
+               "stronger than Raft's property (the oracles check the higher-term form). The hypotheses are non-vacuous (fault-free 3-node history with leader commits). "
+               "The model carries the revision of the election code (C27): the check reads raft.rs and compares with the model of that revision; "
+               "the refutations through the three log-replication classes are machine-checked for EVERY revision, the other three only before the C27 repairs - on a tree "
                "with the repairs their classes are no longer accepted as known findings. The model is tied to /repo on every run by comparing complete cluster states after every event of seeded adversarial event lists; "
                "a new leader missing a leader-committed entry in a history outside the listed classes is a VIOLATION.",
     design_ref="DESIGN.md §5 C29, C27–C30 common",
-    level_note="Only refutations and the model/implementation tie are machine-checked for this property; no conditional leader-completeness theorem is claimed (partial).",
+    level_note="The property is NOT a theorem of the code as it is (three open defect classes, known findings); what is proved is that nothing else can break it for leaders of higher terms. "
+               "The direct oracle of the harness and the model flag lc check Raft's Leader Completeness: a node that becomes leader of term t' holds every entry committed by a leader of a term t < t' "
+               "('later leader' = leader of a later term); the literal reading (any later leader) is violated by correct behaviour, documented by C29_literal_refuted_by_late_leader and by the regression case "
+               "corpus/C29/00_late_leader_older_term.txt, which runs first on every check and must produce no failure. The one-node cluster is excluded.",
 )
+
 
 RULE = ("corpus witnesses of the _refuted lemmas, then seeded random adversarial event lists biased to leader changes with appends (<=80 events, 3 and 5 nodes); per event the "
         "printed cluster state of the extracted model is compared with the implementation's; non-trivial = at least one leader elected")
